@@ -35,7 +35,8 @@ func CompileAllOf(rootSchema *schema.Schema) {
 	c.processSchema(rootSchema)
 
 	// In case allow is used only in types (not in the root schema).
-	for name := range rootSchema.TypesList() {
+	// In the order of the names, see schema.Schema.TypeNames.
+	for _, name := range rootSchema.TypeNames() {
 		c.processType(name)
 	}
 
